@@ -39,7 +39,7 @@ def classify(s, base_obs):
 def f8_shape(tp, s, base_obs):
     """NARROW match for F8: the priority-await template, nothing wrong except that the multi-target
     select returned a lower-priority (22/33) result instead of p1's 11."""
-    if tp["name"] != "priority_await" or not s.ok or basic_problems(s):
+    if "!p1 =first" not in str(tp["src"]) or not s.ok or basic_problems(s):
         return False
     obs = s.observable()
     for low in ("22", "33"):
@@ -79,7 +79,8 @@ def run(ctx):
         meta.append((pi, (1, 1000), None))
         if pi < len(corpus):
             lines.append(corpus[pi][1])
-            meta.append((pi, ("corpus", 0), "corpus"))
+            cf = {x[0]: x[1:] for x in sexpr.parse(corpus[pi][1])[1:]}
+            meta.append((pi, (int(cf["workers"][0]), int(cf["quantum"][0])), "corpus"))
             continue
         for k in range(nsched):
             w, q = simlib.random_cfg(rng)
@@ -104,7 +105,7 @@ def run(ctx):
                                    prefix_depth=depth, schedules=len(lines) - n0, exhaustive=True))
     res = runner.run(lines)
     base = {}
-    failures = collections.OrderedDict()    # (prog, kind) -> list of case indices
+    failures = collections.OrderedDict()    # (template name, kind, known finding or None) -> list of case indices
     hist_t, hist_w, hist_q = collections.Counter(), collections.Counter(), collections.Counter()
     nontrivial = actions = 0
     distinct = set()
@@ -113,7 +114,7 @@ def run(ctx):
         if sched is None:
             probs = basic_problems(s)
             if probs:
-                failures.setdefault((pi, "baseline"), []).append(i)
+                failures.setdefault((tp["name"], "baseline", None), []).append(i)
             base[pi] = s.observable() if s.ok else None
             continue
         hist_t[tp["name"]] += 1
@@ -123,29 +124,29 @@ def run(ctx):
             actions += s.stats.get("actions", 0)
             if s.nontrivial():
                 nontrivial += 1
-                distinct.add(hash((tp["src"], cfg, sched)))
+                distinct.add(hash((str(tp["src"]), cfg, sched)))
         for kind, _ in classify(s, base.get(pi)):
-            failures.setdefault((pi, kind), []).append(i)
-    # report (shrunk) failures
-    reported = 0
-    known_hits = collections.Counter()
-    for (pi, kind), idxs in failures.items():
-        tp = all_progs[pi]
-        i = idxs[0]
-        s = res[i]
-        _, cfg, sched = meta[i]
-        if kind == "differs" and f8_shape(tp, s, base[pi]):
-            fk = "F8"
-        else:
             fk = None
-        if reported >= 6 and fk is None:
-            continue
-        obj = replay_object(runner, tp, lines[i], kind, s, base.get(pi), len(idxs), lambda x, b=base.get(pi): [k for k, _ in classify(x, b)])
+            if kind == "differs" and f8_shape(tp, s, base.get(pi)):
+                # one worker: only the same-worker direct notification can overtake the snapshot (F17);
+                # several workers: the replaced worker answer (F8) or F17, not told apart here
+                fk = "F17" if cfg[0] == 1 else "F8"
+            elif simlib.f16_shape(s):
+                fk = "F16"
+            key = ("*", kind, fk) if fk else (tp["name"], kind, None)
+            failures.setdefault(key, []).append(i)
+    # report (shrunk) failures
+    known_hits = collections.Counter()
+    for (tname, kind, fk), idxs in failures.items():
+        # one (shrunk) replay per (template, kind, finding) group; the group size is recorded in it
+        i = min(idxs, key=lambda k: len(lines[k]))
+        pi, cfg, sched = meta[i]
+        tp = all_progs[pi]
+        b = base.get(pi)
+        obj = replay_object(runner, tp, lines[i], kind, res[i], b, len(idxs), lambda x, b=b: [k for k, _ in classify(x, b)] if kind != "baseline" else (["baseline"] if basic_problems(x) else []))
         if fk:
             known_hits[fk] += len(idxs)
             obj["finding"] = fk
-        else:
-            reported += 1
         ctx.violation(obj, finding_key=fk)
     ctx.cov.update({
         "evaluations": len(lines), "programs": len(all_progs), "schedules_per_program": nsched,
@@ -153,7 +154,7 @@ def run(ctx):
         "rule": "a schedule is non-trivial when it contains a partial-visibility action ((w i k) with k < queued commands, (e k..) hiding a queued event) or a starvation stretch (an enabled component not scheduled for >= 3 consecutive actions); distinct by (program, configuration, schedule)",
         "templates": dict(hist_t), "worker_counts": {str(k): v for k, v in hist_w.items()}, "quanta": {str(k): v for k, v in hist_q.items()},
         "exhaustive": exhaustive, "corpus_cases": len(corpus),
-        "failing_groups": {"%s/%s" % (all_progs[p]["name"], k): len(v) for (p, k), v in failures.items()},
+        "failing_groups": {"%s/%s%s" % (t, k, "/" + f if f else ""): len(v) for (t, k, f), v in failures.items()},
         "known_finding_hits": dict(known_hits),
         "samples": [lines[1], lines[2], res[2].line[:400]] if len(lines) > 2 else [],
         "traces_validated_against_impl": 0, "disagreements_checked": sum(len(v) for v in failures.values()),
@@ -171,7 +172,7 @@ def replay_object(runner, tp, line, kind, s, base_obs, count, kinds_of):
     workers, quantum = int(f["workers"][0]), int(f["quantum"][0])
     shrunk, ok = actions, False
     if actions and kind in kinds_of(es):
-        shrunk, ok = simlib.shrink_schedule(runner.one, f["program"], workers, quantum, simlib.schedule_text(f.get("opts", [])),
+        shrunk, ok = simlib.shrink_schedule(runner.run, f["program"], workers, quantum, simlib.schedule_text(f.get("opts", [])),
                                             actions, lambda x: kind in kinds_of(x))
     final = runner.one(case_line(f["program"], workers, quantum, simlib.schedule_text(shrunk), simlib.schedule_text(f.get("opts", [])))) if ok else s
     return {
